@@ -364,6 +364,10 @@ func Decrypt(priv *PrivateKey, data []byte, mode int) ([]byte, error) {
 	if !curve.IsOnCurve(x, y) {
 		return nil, errors.New("Decrypt: C1 is not on the curve")
 	}
+	// IsOnCurve reduces its arguments mod p: coordinates must be field elements in [0, p-1]
+	if p := curve.Params().P; x.Cmp(p) >= 0 || y.Cmp(p) >= 0 {
+		return nil, errors.New("Decrypt: C1 coordinates are not field elements")
+	}
 	x2, y2 := curve.ScalarMult(x, y, priv.D.Bytes())
 	x2Buf := x2.Bytes()
 	y2Buf := y2.Bytes()
